@@ -16,12 +16,10 @@ theorem sum_chunkSizes (n k : Nat) (hk : 0 < k) : (chunkSizes n k).sum = n := by
   rw [h3, Nat.mul_add, Nat.mul_one]
   omega
 
-theorem length_chunkSizes (n k : Nat) : (chunkSizes n k).length = k := by
+theorem length_chunkSizes (n k : Nat) (hk : 0 < k) : (chunkSizes n k).length = k := by
   unfold chunkSizes
   simp only [List.length_append, List.length_replicate]
-  by_cases hk : k = 0
-  · subst hk; simp
-  · have := Nat.mod_lt n (Nat.pos_of_ne_zero hk); omega
+  have := Nat.mod_lt n hk; omega
 
 theorem mem_chunkSizes {n k s : Nat} (h : s ∈ chunkSizes n k) : s = n / k ∨ s = n / k + 1 := by
   unfold chunkSizes at h
